@@ -85,4 +85,8 @@ class JS(BaseDistanceBasedProbability):
             num_bins=num_bins,
         )
         js = jensenshannon(p=X_ref_rvs, q=X_rvs, **kwargs)
+        if np.isnan(js) and np.all(np.isfinite(X_ref_rvs)) and np.all(np.isfinite(X_rvs)):
+            # the divergence of two distributions equal up to rounding can come
+            # out as -1e-17, whose square root is nan
+            js = 0.0
         return js
